@@ -5,7 +5,9 @@ the patch applies, the crate builds with all type features, the 674 pinned lib t
 demonstration fails with the change and passes without it."""
 import glob, json, os, re, shutil, sys
 ROOT = os.path.dirname(os.path.dirname(os.path.abspath(__file__)))
-EXCLUDE = {"C02-m3": "re-associated sum: not a violation of the property in exact arithmetic (DESIGN 12.4)"}
+EXCLUDE = {"C02-m3": "re-associated sum: not a violation of the property in exact arithmetic (DESIGN 12.4)",
+           "C02-m9": "re-associated partial min/max reduction: differs only when a NaN sits between the elements (no order there), not a violation of the property as stated (DESIGN 12.5)",
+           "C15-m7": "led to genuine defect D10; after the repair (stable quadratic roots, 544bfbf) the change is harmless and its demonstration passes"}
 AUDIT = {}
 ap = os.path.join(ROOT, "audit", "results.json")
 if os.path.exists(ap):
